@@ -366,3 +366,37 @@ def c07(ctx, api):
                       'detector; non-trivial when every call has a single admissible outcome',
                       extra={'model_checks': ['Pure in every interleaved state'],
                              'limit': 'schedule control is at evaluate-entry granularity; below that the Go race detector is the oracle'})
+
+
+# --------------------------------------------------------------------- C08
+@plan('C08')
+def c08(ctx, api):
+    acc = Acc()
+    thorough = ctx['tier'] == 'thorough'
+    st, summ = api['run_tlc_to_harness'](ctx, 'fault', 'GenFault', cfg(constants={'Emit': 'TRUE', 'Prop': '"C08"'}), timeout=1500)
+    acc.add('GenFault: single-fault catalogue (every static class, every run-time fault site) x 15 documents', st, summ)
+    # every failing case of the function generator: category and nil result
+    st, summ = api['run_tlc_to_harness'](ctx, 'call', 'GenCall',
+                                         cfg(constants={'Emit': 'TRUE', 'Prop': '"C08"', 'Small': 12 if thorough else 7}), timeout=3000)
+    acc.add('GenCall: categories of all failing calls (arity / unknown / type / value)', st, summ)
+    consts = {'Emit': 'TRUE', 'Prop': '"C08"', 'MaxCalls': 3, 'MaxDocs': 4, 'NTexts': 16 if thorough else 10}
+    st, summ = api['run_tlc_to_harness'](ctx, 'api', 'API', cfg(constants=consts) if thorough else
+                                         cfg(constants=dict(consts, MaxCalls=2)), timeout=3000)
+    acc.add('API.tla histories: Compile reports static faults, a compiled Expression never does, one-shot Search reports them for every document', st, summ)
+    return acc.result(RULE_PINNED + '; on every failing call the harness also requires a nil result, exactly one matching exported '
+                      'category under errors.Is, and that the error formats',
+                      extra={'model_checks': ['SingleCategory', 'StaticIgnoresDoc', 'StaticAtCompile']})
+
+
+# --------------------------------------------------------------------- C18
+@plan('C18')
+def c18(ctx, api):
+    acc = Acc()
+    thorough = ctx['tier'] == 'thorough'
+    st, summ = api['run_tlc_to_harness'](ctx, 'pipe', 'GenPipe', cfg(constants={'Emit': 'TRUE', 'Prop': '"C18"'}), timeout=3000)
+    acc.add('GenPipe: 29 x 24 pairs (e1, e2) x 15 documents; results fed back as Go values', st, summ)
+    consts = {'Emit': 'TRUE', 'Prop': '"C18"', 'MaxCalls': 4 if thorough else 3, 'MaxDocs': 5, 'NTexts': 8 if thorough else 5}
+    st, summ = api['run_tlc_to_harness'](ctx, 'api', 'API', cfg(constants=consts), timeout=3000)
+    acc.add('API.tla histories with FeedBack (a result becomes a document of later calls)', st, summ)
+    return acc.result(RULE_PINNED + '; every successful result is also walked for non-JSON Go types and must survive json.Marshal/decode unchanged',
+                      extra={'model_checks': ['PipeLaw', 'Closed']})
